@@ -53,6 +53,25 @@ var MethodCallPoint = make(map[string][]CallPoint)
 var MethodCalleePoint = make(map[string][]CalleePoint)
 var SpecialCodeComments = []SpecialCodeComment{}
 
+// compareSigTie orders signatures that share method, class and frame
+// (overloads of one configured method, a class method and an instance method of
+// the same name), so that the sorted output does not depend on map iteration order.
+func compareSigTie(a, b Sig) int {
+	if a.Detail != b.Detail {
+		if a.Detail < b.Detail {
+			return -1
+		}
+		return 1
+	}
+	if a.IsStatic != b.IsStatic {
+		if !a.IsStatic {
+			return -1
+		}
+		return 1
+	}
+	return 0
+}
+
 func GetSortedTSignatures() []Sig {
 	sortedSignatures := make([]Sig, 0, len(TSignatures))
 
@@ -79,7 +98,7 @@ func GetSortedTSignatures() []Sig {
 		if a.Frame > b.Frame {
 			return 1
 		}
-		return 0
+		return compareSigTie(a, b)
 	})
 
 	return sortedSignatures
@@ -111,7 +130,7 @@ func GetSortedTSignaturesByClass() []Sig {
 		if a.Frame > b.Frame {
 			return 1
 		}
-		return 0
+		return compareSigTie(a, b)
 	})
 
 	return sortedSignatures
